@@ -204,9 +204,9 @@ func Model(r *rand.Rand, opt ModelOpt) *openfgav1.AuthorizationModel {
 		m.TypeDefinitions = append(m.TypeDefinitions, td)
 	}
 	if opt.Hazards && r.Intn(2) == 0 {
-		g.plant(m, terms, objs, relNames, r.Intn(19))
+		g.plant(m, terms, objs, relNames, r.Intn(20))
 	} else if opt.Shapes && r.Intn(4) == 0 {
-		g.plant(m, terms, objs, relNames, []int{12, 13, 14, 15, 17, 18}[r.Intn(6)])
+		g.plant(m, terms, objs, relNames, []int{12, 13, 14, 15, 17, 18, 19}[r.Intn(7)])
 	}
 	if opt.PureCycles && r.Intn(3) == 0 && len(relNames) >= 2 {
 		// a cycle of pure computed relations of length 2..len
@@ -531,6 +531,18 @@ func (g *mgen) plant(m *openfgav1.AuthorizationModel, terms, objs, rels []string
 				}
 			}
 			set(a, Union(This(), TTU(b, "p")), RefType(u1))
+		}
+	case 19: // VALID: two tuple-to-usersets over ONE tupleset with different computed relations, next to each other
+		// under an intersection with a third operand; the two reach different type sets
+		if len(rels) >= 3 && u != u1 {
+			b2, c2, d2 := rels[0], rels[1], rels[2]
+			if a != b2 && a != c2 && a != d2 {
+				set("p", This(), RefType(o))
+				set(b2, This(), RefType(u), RefType(u1))
+				set(c2, This(), RefType(u))
+				set(d2, This(), RefType(u), RefType(u1))
+				set(a, Inter(TTU(b2, "p"), TTU(c2, "p"), Computed(d2)))
+			}
 		}
 	case 15: // VALID: nested operators mixing all three kinds over one multi-type direct assignment
 		if a != b {
